@@ -137,12 +137,65 @@ def run(ctx):
         ctx.bump('gen:' + k_, v_)
     if not judge(ctx, spec, items, 'G124'):
         return
+    # G6: one code point in code position - every code point below U+0250 and of the punctuation / symbol / format blocks, as
+    # identifier, inside an identifier, between operands and as an operator (the lexical grammar's character classes seen
+    # through the parser: a symbol that becomes an identifier character, a letter that stops being one)
+    items6 = []
+    cps = list(range(0x80, 0x250)) + list(range(0x2000, 0x2070)) + list(range(0x2100, 0x2150)) + [0x37e, 0x387, 0x3f6, 0x60c, 0xfeff,
+                                                                                                  0xff04, 0xff3f, 0x3000, 0x180e]
+    if ctx.tier != 'thorough':
+        cps = [c for c in cps if c < 0x100 or c in (0x2028, 0x2029, 0x200c, 0x200d, 0x2118, 0x212e, 0xfeff)] + \
+            rng.sample([c for c in cps if c >= 0x100], 60)
+    for cp in cps:
+        ch = chr(cp)
+        for form in ('%s', 'x = a%sb;', 'var %s = 1;', 'x = a %s b;', 'a%s', '%sa = 1'):
+            items6.append((form % ch, None))
+    if not judge(ctx, spec, items6, 'G6'):
+        return
+    # the parse must not depend on the node factory the parser was configured with (the grammar actions go through
+    # self.asttypes): a second, independent AstTypesFactory must give structurally identical trees
+    if not factory_scenario(ctx):
+        return
     ctx.sample(dict(g3_example=' '.join(ALPHA[:3]), compared='accept/reject + tree structure vs Spec.Es5Parse'))
     # ties
     if getattr(ctx, 'drivers_ok', True):
         tt = [t for t, _ in items[:ctx.n(200, 1500)]]
         lrtie.lr_tie(ctx, tt)
         parsetie.parse_tie(ctx, tt[:ctx.n(120, 800)], with_comments=(False,))
+
+
+FACTORY_TEXTS = ['switch(a){case 1: x; default: y; case 2: z}', 'switch(a){default: b}', 'switch(a){case 1: case 2: c; default:}',
+                 'x = {a: 1, get b(){ return 1; }, set c(v){}, "d": 2, 3: e}; y = [1,,2,,];', 'for (var i = 0 in o) ; for (a in b) c;',
+                 'try { a } catch (e) { b } finally { c }', 'l: for(;;) { continue l; } do x; while (y)',
+                 'function f(a, b) { return function g() { return this; }; } new f(1)(2).x[y]++', 'if (a) b; else if (c) d; else e',
+                 'a ? b : c, d = e += f, typeof void delete g, !-~+h; with (o) p; throw q; debugger']
+
+
+def factory_scenario(ctx):
+    from calmjs.parse.factory import AstTypesFactory
+    from calmjs.parse.parsers.es5 import Parser
+    from calmjs.parse.unparsers.es5 import pretty_print
+    from calmjs.parse.walkers import ReprWalker
+    texts = FACTORY_TEXTS + ctx.sub_rng('factory').sample(corpus.g1_valid(), ctx.n(40, 300))
+    custom = AstTypesFactory(pretty_print, ReprWalker())
+    for t in texts:
+        ctx.case(('factory', t), nontrivial=True)
+        try:
+            a = Parser().parse(t)
+        except Exception:
+            continue
+        try:
+            b = Parser(asttypes=custom).parse(t)
+        except Exception as e:
+            ctx.violation('a parser configured with another AstTypesFactory rejects a program the default parser accepts',
+                          dict(text=t, error='%s: %s' % (type(e).__name__, e)))
+            return False
+        da, db = treedump.dump(a), treedump.dump(b)
+        if da != db:
+            ctx.violation('the tree depends on the node factory the parser was configured with',
+                          dict(text=t, default=proto.render(da)[:600], custom_factory=proto.render(db)[:600]))
+            return False
+    return True
 
 
 def replay(ctx, path):
